@@ -3,6 +3,7 @@ Morpheme::{begin,end,begin_c,end_c,surface} and StatefulTokenizer::resolve_best_
 five Morpheme accessors."""
 import re
 import facts as F
+import sitekeys as SK
 
 BUF = "sudachi/src/input_text/buffer/mod.rs"
 TOK = "sudachi/src/analysis/stateful_tokenizer.rs"
@@ -71,6 +72,11 @@ def row(name, body):
                                           len(re.findall(r"\.unwrap\(\)", body)), "; ".join('"%s"' % x for x in cast_exprs(body)))
 
 
+def krow(name, body):
+    body = re.sub(r"#!?\[[^\]]*\]", "", body)
+    return (name, SK.keys(index_exprs(body), len(re.findall(r"\.unwrap\(\)", body)), 0, cast_exprs(body)))
+
+
 def gen():
     out = [F.HEADER]
     b = clean(F.src(BUF))
@@ -78,7 +84,11 @@ def gen():
     out.append("(* input_text/buffer/mod.rs accessors: (name, index expressions in source order, unwrap calls, narrowing casts) *)\n")
     out.append("Definition buffer_accessor_fns : list (string * list string * N * list string) :=\n  [ %s ].\n" % ";\n    ".join(rows))
     t = clean(F.src(TOK))
+    krows = [krow(fn, F.fn_body(b, fn, BUF)) for fn in BUF_FNS]
     out.append("(* analysis/stateful_tokenizer.rs *)\n")
+    krows.append(krow("resolve_best_path", F.fn_body(t, "resolve_best_path", TOK)))
+    out.append("(* the same constructs as keys (gen/sitekeys.py): what the one-directional part of C03_fact_accessor_sites compares *)\n")
+    out.append("Definition accessor_site_keys : list (string * list string) :=\n  [ %s ].\n" % SK.coq_rows(krows))
     out.append("Definition resolve_best_path_sites : string * list string * N * list string := %s.\n" % row("resolve_best_path", F.fn_body(t, "resolve_best_path", TOK)))
     rb = re.sub(r"\s+", "", F.fn_body(t, "resolve_best_path", TOK))
     calls = re.findall(r"self\.input\.(\w+)\(", rb) + re.findall(r"self\.lattice\.(\w+)\(", rb)
